@@ -449,6 +449,15 @@ func TestC09ForeignDecode(t *testing.T) {
 			if err != nil {
 				fail("HARNESS: reference encoder output rejected by reference decoder: %v", err)
 			}
+			covered := 0
+			for _, g := range rs.Groups {
+				covered += int(g.End-g.Start) + 1
+			}
+			if covered > 65536 {
+				// glyph-0 groups pushed the table past the 65536 entries of the domain
+				stats.CaseIn("foreign-decode", 0, false, nil, "dropped:>65536-entries")
+				return
+			}
 			keys := m.keys()
 			probes := probes32(keys, rs.Groups, probeSeed, 4096)
 			for _, c := range probes {
@@ -1025,7 +1034,7 @@ func TestC09InstallCMap(t *testing.T) {
 			}
 			highestKey = highest
 			if rapid.IntRange(0, 5).Draw(t, "zeroAbove") == 5 {
-				if z := 0x10000 + uint32(rapid.IntRange(0, 0xFFFFF).Draw(t, "zeroAt")); m.m[z] == 0 {
+				if z := 0x10000 + uint32(rapid.IntRange(0, 0xFFFFF).Draw(t, "zeroAt")); m.m[z] == 0 && len(lib) < 65536 {
 					lib[z] = 0 // an entry with glyph 0 maps nothing
 				}
 				for c := range lib {
